@@ -10,6 +10,14 @@ import (
 
 func init() { streams["c19"] = runC19 }
 
+// float64 as hex bits with every NaN mapped to the canonical quiet NaN (Lean's Float.toBits does the same)
+func c19CanonNaN(x float64) string {
+	if math.IsNaN(x) {
+		return "7ff8000000000000"
+	}
+	return F(x)
+}
+
 // positive size / radius
 func (c *Ctx) pos() float64 {
 	switch c.Rng.Intn(4) {
@@ -181,6 +189,17 @@ func runC19(c *Ctx) {
 					c.Emit("c19.holds.line_scaled", vF(ta)+" "+vF(tb)+" "+F(tr)+" "+vF(tp)+" "+F(tf(tp)), "true")
 				}
 				c.Note("line.scaled")
+			}
+			// degenerate capsule start == end (outside the property: it quantifies over sizes > 0, the theorems carry a ≠ b):
+			// heading.Normalized() divides 0/0 and the closure returns NaN for EVERY sample. Pinned here as a correspondence
+			// line (the regenerated definition at Float gives NaN as well; NaN payload/sign canonicalised as Lean's toBits does);
+			// no PRNG draw, so the rest of the stream is unchanged.
+			if k%8 == 0 {
+				df := sdf.Line(ctr, ctr, r)
+				for _, dp := range []vector3.Float64{ctr, ctr.Add(vector3.New(1., 2., 3.))} {
+					c.Emit("c19.line", vF(ctr)+" "+vF(ctr)+" "+F(r)+" "+vF(dp), c19CanonNaN(df(dp)))
+				}
+				c.Note("line.degenerate_nan")
 			}
 		}
 		// plane
